@@ -8,7 +8,18 @@ FN = {"Add": "add", "BitAnd": "bitand", "BitOr": "bitor", "BitXor": "bitxor", "D
       "Shl": "shl", "Shr": "shr", "Sub": "sub", "Neg": "neg", "Not": "not"}
 SYM = {"Add": "+", "BitAnd": "&", "BitOr": "|", "BitXor": "^", "Div": "/", "Mul": "*", "Rem": "%", "Shl": "<<", "Shr": ">>", "Sub": "-",
        "Neg": "-", "Not": "!"}
-HEAD = "#![allow(dead_code, unused, non_camel_case_types, non_snake_case, clippy::all)]\n"
+HOSTILE_MOD = """pub mod hostile {
+    #![allow(dead_code, non_camel_case_types, non_upper_case_globals, non_snake_case)]
+    pub struct Option; pub struct Some; pub struct None; pub struct Result; pub struct Ok; pub struct Err;
+    pub trait Eq {} pub trait PartialEq {} pub trait Ord {} pub trait PartialOrd {} pub trait Hash {} pub trait Hasher {}
+    pub trait Clone {} pub trait Copy {} pub trait Debug {} pub trait Default {} pub trait Fn {} pub trait FnMut {} pub trait FnOnce {}
+    pub trait Sized {} pub trait Into {} pub trait From {} pub trait Deref {} pub trait DerefMut {} pub trait Add {} pub trait Neg {}
+    pub enum Ordering {} pub struct Formatter; pub struct Less; pub struct Equal; pub struct Greater;
+    pub fn unreachable() {} pub fn stringify() {} pub fn drop() {}
+    pub mod fmt {} pub mod cmp {} pub mod ops {} pub mod hash {} pub mod clone {} pub mod option {} pub mod marker {} pub mod default {} pub mod convert {}
+}
+"""
+HEAD = "#![allow(dead_code, unused, non_camel_case_types, non_snake_case, clippy::all)]\n" + HOSTILE_MOD
 
 
 def derive_head(traits, entry):
@@ -29,13 +40,21 @@ def shape_values(shape):
     return out
 
 
-def clone_module(idx, shape, entry, named_mask, generic=False):
+def clone_module(idx, shape, entry, named_mask, generic=False, extra=(), bounds=None):
     """module with one type of the given shape (number of fields per variant) deriving Clone and a driver that
     executes every transition of MC_Clone from every state"""
     is_struct = len(shape) == 1
-    ty = "::dx_support::CF" if not generic else "X"
+    cf_name = "CFC" if "Copy" in extra else "CF"
+    ty = ("::dx_support::" + cf_name) if not generic else "X"
     g = "<X>" if generic else ""
-    inst = "<::dx_support::CF>" if generic else ""
+    inst = ("<::dx_support::%s>" % cf_name) if generic else ""
+    traits = list(extra) + ["Clone"]
+    if bounds == "this_dd":
+        traits = [t + "(bound(..))" if t == "Clone" else t for t in traits]
+    elif bounds == "shared_empty":
+        traits = traits + ["bound()"]
+    elif bounds == "shared_dd":
+        traits = traits + ["bound(..)"]
 
     def decl(vi, n):
         named = (named_mask >> vi) & 1
@@ -44,13 +63,13 @@ def clone_module(idx, shape, entry, named_mask, generic=False):
         if named:
             return ("{ " + ", ".join("f%d: %s" % (j, ty) for j in range(n)) + " }", "named")
         return ("(" + ", ".join(ty for j in range(n)) + ")", "tuple")
-    lines = ["pub mod m%d {" % idx, "    use ::dx_support::CF;"]
+    lines = ["pub mod m%d {" % idx, "    use ::dx_support::%s as CF;" % cf_name]
     if is_struct:
         body, kind = decl(0, shape[0])
-        lines.append("    %s pub struct T%s %s%s" % (derive_head(["Clone"], entry), g, body, "" if kind == "named" else ";"))
+        lines.append("    %s pub struct T%s %s%s" % (derive_head(traits, entry), g, body, "" if kind == "named" else ";"))
     else:
         vs = ", ".join("A%d %s" % (vi, decl(vi, n)[0]) for vi, n in enumerate(shape))
-        lines.append("    %s pub enum T%s { %s }" % (derive_head(["Clone"], entry), g, vs))
+        lines.append("    %s pub enum T%s { %s }" % (derive_head(traits, entry), g, vs))
     TT = "T" + inst
     # constructor and projection (no Clone involved)
     lines.append("    fn mk(v: usize, x: &[u8]) -> %s { match v {" % TT)
@@ -130,7 +149,7 @@ def clone_history_module(idx, shape, entry, named_mask, script):
 # ------------------------------------------------------------------------------------------------
 # C08
 # ------------------------------------------------------------------------------------------------
-def ops_module(idx, n, kind, entry, ops=None, generic=False):
+def ops_module(idx, n, kind, entry, ops=None, generic=False, bounds=None):
     """struct with n Tm fields deriving all 22 operator traits; driver exercises every form"""
     ops = ops or BINOPS
     traits = list(ops) + [o + "Assign" for o in ops] + ["Neg", "Not"]
@@ -143,7 +162,20 @@ def ops_module(idx, n, kind, entry, ops=None, generic=False):
         decl = "pub struct T%s { %s }" % (g, ", ".join("f%d: %s" % (j, ty) for j in range(n)))
     else:
         decl = "pub struct T%s(%s);" % (g, ", ".join(ty for _ in range(n)))
-    lines = ["pub mod m%d {" % idx, "    use ::dx_support::{tm, Tm};", "    %s %s" % (derive_head(traits, entry), decl)]
+    dtraits = list(traits)
+    if bounds == "shared_empty":
+        dtraits = dtraits + ["bound()"]
+    elif bounds == "this_dd":
+        dtraits = [t + "(bound(..))" for t in dtraits]
+    elif bounds == "this_empty":
+        dtraits = [t + "(bound())" for t in dtraits]
+    elif bounds == "field_empty" and n > 0:
+        fa = "#[derive_ex(%s, bound())] " % ", ".join(traits)
+        if kind == "named":
+            decl = "pub struct T%s { %s }" % (g, ", ".join(("%sf%d: %s" % (fa if j == n - 1 else "", j, ty)) for j in range(n)))
+        else:
+            decl = "pub struct T%s(%s);" % (g, ", ".join(((fa if j == n - 1 else "") + ty) for j in range(n)))
+    lines = ["pub mod m%d {" % idx, "    use ::dx_support::{tm, Tm};", "    %s %s" % (derive_head(dtraits, entry), decl)]
 
     def ctor(c):
         args = ["tm(\"%s%d\")" % (c, j) for j in range(n)]
@@ -257,3 +289,429 @@ def implop_module(idx, op, base, rhs_self, want_bin, want_assign, base_is_assign
     desc = {"op": op, "base": {"l": bl, "r": br}, "rhs_self": rhs_self, "want_bin": want_bin, "want_assign": want_assign,
             "base_is_assign": base_is_assign}
     return "\n".join(lines), {"attr": attr, "item": impl}, desc
+
+
+# ------------------------------------------------------------------------------------------------
+# C10 Debug
+# ------------------------------------------------------------------------------------------------
+FLAGS = ["{:?}", "{:#?}", "{:5?}", "{:<8?}", "{:>8?}", "{:^8?}", "{:*^10?}", "{:+?}", "{:.1?}", "{:x?}", "{:X?}", "{:#x?}", "{:08.2?}",
+         "{:#10?}", "{:+.3?}", "{:#<6?}", "{:02?}"]
+LEAF_TYPES = [("i32", ["7", "-3"]), ("f64", ["1.5", "-0.25"]), ("&'static str", ["\"hi\"", "\"a b\""]), ("::core::option::Option<i32>", ["Some(4)", "None"]),
+              ("Inner", ["Inner { p: 1, q: -2 }"]), ("(u8, bool)", ["(3, true)"]), ("::std::vec::Vec<u8>", ["vec![1, 2]", "vec![]"])]
+INNER = "#[derive(Debug, Clone)] pub struct Inner { pub p: i32, pub q: i32 }"
+
+
+def debug_module(idx, desc, entry, rnd):
+    """desc: {"kind": "struct"|"enum", "variants": [{"name", "shape", "fields": [{"name", "ty": index into LEAF_TYPES, "dbg"}]}], "generic": bool}
+    The twin (std derive, ignored fields deleted, same names) lives in a sub-module."""
+    kind = desc["kind"]
+    gen = desc.get("generic", False)
+    lines = ["pub mod m%d {" % idx, "    " + INNER]
+
+    def fdecl(v, twin):
+        fs = []
+        for f in v["fields"]:
+            if twin and f["dbg"] == "ignore":
+                continue
+            at = "" if twin or f["dbg"] == "none" else "#[debug(%s)] " % f["dbg"]
+            ty = LEAF_TYPES[f["ty"]][0] if not (gen and f.get("gen")) else "G"
+            if twin and ty == "Inner":
+                ty = "super::Inner"
+            fs.append(at + (("%s: " % f["name"]) if v["shape"] == "named" else "") + ty)
+        if v["shape"] == "named":
+            return "{ " + ", ".join(fs) + " }"
+        if v["shape"] == "tuple":
+            return "(" + ", ".join(fs) + ")"
+        return ""
+    g = "<G>" if gen else ""
+
+    def item(twin):
+        head = "#[derive(Debug)]" if twin else derive_head(["Debug"], entry)
+        if kind == "struct":
+            v = desc["variants"][0]
+            body = fdecl(v, twin)
+            # a named / tuple struct whose every field was ignored keeps its braces / parens in the twin
+            return "%s pub struct %s%s %s%s" % (head, v["name"], g, body, "" if v["shape"] == "named" else ";")
+        vs = ", ".join("%s %s" % (v["name"], fdecl(v, twin)) for v in desc["variants"])
+        return "%s pub enum E%s { %s }" % (head, g, vs)
+    lines.append("    " + item(False))
+    has_transparent = any(f["dbg"] == "transparent" for v in desc["variants"] for f in v["fields"])
+    lines.append("    pub mod twin { " + item(True) + " }")
+    lines.append("    fn lines(s: &str) -> String { let v: Vec<String> = s.split('\\n').map(|x| x.to_string()).collect(); ::dx_support::json_strs(&v) }")
+    lines.append("    pub fn run() -> String {\n        let mut out = String::new();")
+    tyname = lambda v: (v["name"] if kind == "struct" else "E::" + v["name"])
+    inst = "::<i32>" if gen else ""
+    for vi, v in enumerate(desc["variants"]):
+        nvals = max([len(LEAF_TYPES[f["ty"]][1]) for f in v["fields"]] + [1])
+        for k in range(min(nvals, 2)):
+            vals = [LEAF_TYPES[f["ty"]][1][k % len(LEAF_TYPES[f["ty"]][1])] for f in v["fields"]]
+
+            def ctor(path, twin):
+                fs = [(f, x) for f, x in zip(v["fields"], vals) if not (twin and f["dbg"] == "ignore")]
+                if v["shape"] == "named":
+                    return "%s { %s }" % (path, ", ".join("%s: %s" % (f["name"], x) for f, x in fs))
+                if v["shape"] == "tuple":
+                    return "%s(%s)" % (path, ", ".join(x for f, x in fs))
+                return path
+            lines.append("        {")
+            lines.append("            let x = %s; let t = %s;" % (ctor(tyname(v), False), ctor("twin::" + tyname(v), True)))
+            tf = [(f, x) for f, x in zip(v["fields"], vals) if f["dbg"] == "transparent"]
+            cmp_target = None
+            if len(tf) == 1:
+                lines.append("            let tr = %s;" % tf[0][1])
+                cmp_target = "tr"
+            else:
+                cmp_target = "t"
+            lines.append("            let mut twin_equal = true; let mut diff = String::new();")
+            for fl in FLAGS:
+                lines.append("            { let a = format!(\"%s\", x); let b = format!(\"%s\", %s); if a != b { twin_equal = false; if diff.is_empty() { diff = format!(\"%s: {:?} vs {:?}\", a, b); } } }"
+                             % (fl, fl, cmp_target, fl.replace("{", "{{").replace("}", "}}")))
+            # leaves
+            leafs = []
+            for f, x in zip(v["fields"], vals):
+                leafs.append("format!(\"{{{{\\\"name\\\":{},\\\"dbg\\\":\\\"%s\\\",\\\"leaf\\\":{},\\\"alt\\\":{}}}}}\", ::dx_support::json_str(\"%s\").len().min(0).to_string().replace(\"0\", &format!(\"\\\"{}\\\"\", \"%s\")), "
+                             "format!(\"\\\"{}\\\"\", ::dx_support::json_str(&format!(\"{:?}\", %s))), lines(&format!(\"{:#?}\", %s)))"
+                             % (f["dbg"], f["name"], f["name"] if v["shape"] == "named" else "", x, x))
+            lines.append("            let fields: Vec<String> = vec![%s];" % ", ".join(leafs))
+            lines.append("            out.push_str(&format!(\"{{\\\"id\\\":%d,\\\"ev\\\":\\\"debug\\\",\\\"name\\\":\\\"%s\\\",\\\"named\\\":%s,\\\"fields\\\":[{}],\\\"plain\\\":\\\"{}\\\",\\\"alt\\\":{},\\\"twin_equal\\\":{},\\\"diff\\\":\\\"{}\\\",\\\"rejected\\\":false}}\\n\", "
+                         "fields.join(\",\"), ::dx_support::json_str(&format!(\"{:?}\", x)), lines(&format!(\"{:#?}\", x)), twin_equal, ::dx_support::json_str(&diff)));"
+                         % (idx, v["name"], "true" if v["shape"] == "named" else "false"))
+            lines.append("        }")
+    lines.append("        out\n    }\n}")
+    return "\n".join(lines)
+
+
+# ------------------------------------------------------------------------------------------------
+# C11 Default
+# ------------------------------------------------------------------------------------------------
+DV_SRC = {"none": None, "str": "\"abc\"", "path": "::dx_support::SRC7", "assoc_path": "::dx_support::Holder::SRC3",
+          "call": "::dx_support::mk(5)", "block": "{ ::dx_support::mk(6) }", "method": "::dx_support::mk(4).clone()"}
+
+
+def default_module(idx, P, entry):
+    """P: {"kind", "tv": "none"|"call"|"path", "variants": [{"shape", "dmark", "vv": "none"|"call", "fields": [{"dv", "underscore": bool}]}]}
+    every field has type Pr (provenance recording)"""
+    lines = ["pub mod m%d {" % idx, "    use ::dx_support::Pr;"]
+    head = derive_head(["Default"], entry)
+    tl = ""
+    if P["tv"] == "call":
+        tl = "#[default(Self::special())] "
+    elif P["tv"] == "path":
+        tl = "#[default(SPECIAL)] "
+
+    def fsrc(v):
+        fs = []
+        for j, f in enumerate(v["fields"]):
+            e = DV_SRC[f["dv"]]
+            at = ""
+            if e is not None:
+                at = "#[default(%s)] " % e
+            elif f.get("underscore"):
+                at = "#[default(_)] "
+            fs.append(at + (("f%d: " % j) if v["shape"] == "named" else "") + "Pr")
+        if v["shape"] == "named":
+            return "{ " + ", ".join(fs) + " }"
+        if v["shape"] == "tuple":
+            return "(" + ", ".join(fs) + ")"
+        return ""
+    if P["kind"] == "struct":
+        v = P["variants"][0]
+        lines.append("    %s %spub struct T %s%s" % (head, tl, fsrc(v), "" if v["shape"] == "named" else ";"))
+    else:
+        vs = []
+        for vi, v in enumerate(P["variants"]):
+            at = ""
+            if v["vv"] != "none":
+                at = "#[default(Self::special())] "
+            elif v["dmark"]:
+                at = "#[default] "
+            vs.append("%sA%d %s" % (at, vi, fsrc(v)))
+        lines.append("    %s %spub enum T { %s }" % (head, tl, ", ".join(vs)))
+    # the type-level special value: variant 1 with marker provenance
+    v0 = P["variants"][0]
+    path0 = "T" if P["kind"] == "struct" else "T::A0"
+    marks = ["Pr(\"type_level\".to_string())" for _ in v0["fields"]]
+    if v0["shape"] == "named":
+        sp = "%s { %s }" % (path0, ", ".join("f%d: %s" % (j, m) for j, m in enumerate(marks)))
+    elif v0["shape"] == "tuple":
+        sp = "%s(%s)" % (path0, ", ".join(marks))
+    else:
+        sp = path0
+    lines.append("    impl T { fn special() -> T { %s } }" % sp)
+    lines.append("    pub struct Sp; pub const SPECIAL: Sp = Sp; impl ::core::convert::From<Sp> for T { fn from(_: Sp) -> T { T::special() } }")
+    lines.append("    fn show(t: &T) -> (usize, Vec<String>) { match t {")
+    for vi, v in enumerate(P["variants"]):
+        path = "T" if P["kind"] == "struct" else "T::A%d" % vi
+        n = len(v["fields"])
+        if v["shape"] == "named":
+            pat = "%s { %s }" % (path, ", ".join("f%d: g%d" % (j, j) for j in range(n)))
+        elif v["shape"] == "tuple":
+            pat = "%s(%s)" % (path, ", ".join("g%d" % j for j in range(n)))
+        else:
+            pat = path
+        lines.append("        %s => (%d, vec![%s])," % (pat, vi + 1, ", ".join("g%d.0.clone()" % j for j in range(n))))
+    lines.append("    } }")
+    lines.append("""    pub fn run() -> String {
+        let d = <T as ::core::default::Default>::default();
+        let (v, p) = show(&d);
+        format!("{{\\"id\\":%d,\\"variant\\":{},\\"prov\\":{}}}\\n", v, ::dx_support::json_strs(&p))
+    }
+}""" % idx)
+    return "\n".join(lines)
+
+
+# ------------------------------------------------------------------------------------------------
+# C18 Deref
+# ------------------------------------------------------------------------------------------------
+DEREF_TYPES = [("::std::string::String", "::std::string::String::from(\"s\")", "::std::string::String::from(\"w\")"),
+               ("::std::boxed::Box<[u8]>", "::std::vec![1u8, 2].into_boxed_slice()", "::std::vec![9u8].into_boxed_slice()"),
+               ("u8", "3u8", "8u8"), ("::std::vec::Vec<u32>", "::std::vec![1u32]", "::std::vec![5u32, 6]"), ("&'static str", "\"x\"", "\"yy\"")]
+
+
+def deref_module(idx, named, ti, generic, entry, where=False):
+    ty, v1, v2 = DEREF_TYPES[ti]
+    fty = "G" if generic else ty
+    g = ("<G: ::core::clone::Clone>" if where is False else "<G>") if generic else ""
+    w = " where G: ::core::clone::Clone" if (generic and where) else ""
+    if named:
+        decl = "pub struct T%s%s { inner: %s }" % (g, w, fty)
+        acc, mk = "x.inner", "T { inner: %s }"
+    else:
+        decl = "pub struct T%s(%s)%s;" % (g, fty, w)
+        acc, mk = "x.0", "T(%s)"
+    TT = "T<%s>" % ty if generic else "T"
+    return """pub mod m%d {
+    %s %s
+    pub fn run() -> String {
+        let mut x: %s = %s;
+        let same_address = {
+            let p: *const %s = &%s; let q: *const %s = <%s as ::core::ops::Deref>::deref(&x); ::core::ptr::eq(p, q) };
+        let target_is_field_type = ::core::any::type_name::<<%s as ::core::ops::Deref>::Target>() == ::core::any::type_name::<%s>();
+        let mut_same_address = {
+            let p: *const %s = &%s; let q: *const %s = <%s as ::core::ops::DerefMut>::deref_mut(&mut x); ::core::ptr::eq(p, q) };
+        *<%s as ::core::ops::DerefMut>::deref_mut(&mut x) = %s;
+        let write_lands = %s == %s;
+        format!("{{\\"id\\":%d,\\"same_address\\":{},\\"target_is_field_type\\":{},\\"mut_same_address\\":{},\\"write_lands\\":{}}}\\n",
+                same_address, target_is_field_type, mut_same_address, write_lands)
+    }
+}""" % (idx, derive_head(["Deref", "DerefMut"], entry), decl, TT, mk % v1, ty, acc, ty, TT, TT, ty, ty, acc, ty, TT, TT, v2, acc, v2, idx)
+
+
+# ------------------------------------------------------------------------------------------------
+# C12: attribute-free shapes, derive_ex type vs std-derived twin
+# ------------------------------------------------------------------------------------------------
+C12_FIELD_TYPES = [("i32", ["-1", "0", "5"]), ("::std::string::String", ["::std::string::String::new()", "\"a\".to_string()"]), ("bool", ["false", "true"]),
+                   ("::core::option::Option<u8>", ["None", "Some(2)"]), ("::std::vec::Vec<u8>", ["vec![]", "vec![1, 2]"]), ("(u8, char)", ["(1, 'x')", "(1, 'y')"]),
+                   ("G", ["3u16", "4u16"]), ("[u8; N]", ["[0u8; 2]", "[7u8; 2]"]), ("&'l str", ["\"p\"", "\"q\""]), ("::core::marker::PhantomData<G>", ["::core::marker::PhantomData"]),
+                   ("u8", ["0", "9"])]
+ALL8 = ["Clone", "Debug", "Default", "PartialEq", "Eq", "PartialOrd", "Ord", "Hash"]
+
+
+def c12_random(rnd, idx):
+    """random attribute-free item; returns dict with the item text (without derive), constructors, generics"""
+    kind = rnd.choice(["struct", "struct", "enum", "enum", "enum"])
+    use_g = use_n = use_l = False
+    raw = rnd.random() < 0.2
+    fname = (lambda j: ["r#type", "r#match", "r#fn", "r#loop"][j % 4]) if raw else (lambda j: "f%d" % j)
+
+    def mkfields(n):
+        nonlocal use_g, use_n, use_l
+        fs = []
+        for j in range(n):
+            ti = rnd.randrange(len(C12_FIELD_TYPES))
+            ty = C12_FIELD_TYPES[ti][0]
+            use_g |= "G" in ty.replace("::", "")
+            use_n |= "N]" in ty
+            use_l |= "'l" in ty
+            fs.append(ti)
+        return fs
+    variants = []
+    if kind == "struct":
+        shape = rnd.choice(["unit", "tuple", "named"])
+        variants.append({"name": "T", "shape": shape, "fields": mkfields(0 if shape == "unit" else rnd.choice([0, 1, 2, 3, 4]))})
+    else:
+        nv = rnd.choice([1, 2, 3, 4, 5])
+        for vi in range(nv):
+            shape = rnd.choice(["unit", "tuple", "named"])
+            vname = ["A%d" % vi, "r#Self_%d" % vi][0] if not raw else ["r#A%d" % vi, "B%d" % vi][vi % 2]
+            variants.append({"name": vname, "shape": shape, "fields": mkfields(0 if shape == "unit" else rnd.choice([0, 1, 2, 3]))})
+        if not any(v["shape"] == "unit" for v in variants):
+            variants.append({"name": "U9", "shape": "unit", "fields": []})
+    gens, inst = [], []
+    if use_l:
+        gens.append("'l")
+        inst.append("'static")
+    if use_g:
+        gens.append(rnd.choice(["G", "G: ::core::marker::Copy", "G = u16"]))
+        inst.append("u16")
+    if use_n:
+        gens.append(rnd.choice(["const N: usize", "const N: usize = 2"]))
+        inst.append("2")
+    g = "<%s>" % ", ".join(gens) if gens else ""
+    where = " where G: ::core::fmt::Debug" if (use_g and rnd.random() < 0.3) else ""
+    attrs = rnd.choice(["", "", "#[repr(C)] ", "#[non_exhaustive] ", "#[allow(dead_code)] /// doc\n"]) if kind == "struct" else rnd.choice(["", "", "#[non_exhaustive] ", "#[repr(u8)] "])
+    if kind == "enum" and "repr(u8)" in attrs and not all(True for v in variants):
+        attrs = ""
+    default_v = None
+    if kind == "enum":
+        units = [i for i, v in enumerate(variants) if v["shape"] == "unit"]
+        default_v = rnd.choice(units)
+
+    def body(v, vi):
+        fs = []
+        for j, ti in enumerate(v["fields"]):
+            ty = C12_FIELD_TYPES[ti][0]
+            fs.append(("pub %s: %s" % (fname(j), ty)) if v["shape"] == "named" else "pub " + ty if kind == "struct" else ty)
+        if kind == "enum" and v["shape"] == "named":
+            fs = [f.replace("pub ", "", 1) for f in fs]
+        if v["shape"] == "named":
+            return "{ " + ", ".join(fs) + " }"
+        if v["shape"] == "tuple":
+            return "(" + ", ".join(fs) + ")"
+        return ""
+    if kind == "struct":
+        v = variants[0]
+        b = body(v, 0)
+        item = "%spub struct T%s %s%s%s" % (attrs, g, b if v["shape"] == "named" else b, where if v["shape"] == "named" else where, "" if v["shape"] == "named" else ";")
+        if v["shape"] == "named":
+            item = "%spub struct T%s%s %s" % (attrs, g, where, b)
+        else:
+            item = "%spub struct T%s%s%s;" % (attrs, g, b, where)
+    else:
+        vs = ", ".join(("#[default] " if vi == default_v else "") + v["name"] + " " + body(v, vi) for vi, v in enumerate(variants))
+        item = "%spub enum T%s%s { %s }" % (attrs, g, where, vs)
+    # values
+    ctors = []
+    for vi, v in enumerate(variants):
+        lists = [C12_FIELD_TYPES[ti][1] for ti in v["fields"]]
+        combos = list(itertools.product(*lists))
+        rnd.shuffle(combos)
+        for tup in combos[:6]:
+            path = "T" if kind == "struct" else "T::" + v["name"]
+            if v["shape"] == "named":
+                ctors.append("%s { %s }" % (path, ", ".join("%s: %s" % (fname(j), x) for j, x in enumerate(tup))))
+            elif v["shape"] == "tuple":
+                ctors.append("%s(%s)" % (path, ", ".join(tup)))
+            else:
+                ctors.append(path)
+    has_nondefault = any(C12_FIELD_TYPES[ti][0] in ("&'l str",) for v in variants for ti in v["fields"])
+    traits = list(ALL8)
+    if kind == "struct" and has_nondefault:
+        pass      # &str: Default exists ("")
+    inst_s = "<%s>" % ", ".join(inst) if inst else ""
+    return {"item": item, "ctors": ctors, "inst": inst_s, "traits": traits, "kind": kind}
+
+
+def c12_module(idx, d, entry, traits=None):
+    traits = traits or d["traits"]
+    TT = "T" + d["inst"]
+    lines = ["pub mod m%d {" % idx,
+             "    pub mod dx { %s %s }" % (derive_head(traits, entry), d["item"]),
+             "    pub mod sd { #[derive(%s)] %s }" % (", ".join(traits), d["item"])]
+
+    def vals(mod):
+        return "{ use %s::T; let v: ::std::vec::Vec<%s::%s> = vec![%s]; v }" % (mod, mod, TT, ", ".join(d["ctors"]))
+    lines.append("    pub fn run() -> String {")
+    lines.append("        let a = %s; let b = %s;" % (vals("dx"), vals("sd")))
+    lines.append("        let mut diff = String::new();")
+    checks = []
+    if "Debug" in traits:
+        lines.append("        let debug_equal = a.iter().zip(b.iter()).all(|(x, y)| { let (p, q) = (format!(\"{:?}\", x), format!(\"{:?}\", y)); if p != q && diff.is_empty() { diff = format!(\"{} vs {}\", p, q); } p == q });")
+        lines.append("        let debug_alt_equal = a.iter().zip(b.iter()).all(|(x, y)| format!(\"{:#?}\", x) == format!(\"{:#?}\", y) && format!(\"{:8.3?}\", x) == format!(\"{:8.3?}\", y));")
+        checks += ["debug_equal", "debug_alt_equal"]
+        if "Clone" in traits:
+            lines.append("        let clone_equal = a.iter().all(|x| format!(\"{:?}\", ::core::clone::Clone::clone(x)) == format!(\"{:?}\", x)) && a.iter().zip(a.iter().rev()).all(|(x, y)| { let mut z = ::core::clone::Clone::clone(x); ::core::clone::Clone::clone_from(&mut z, y); format!(\"{:?}\", z) == format!(\"{:?}\", y) });")
+            checks.append("clone_equal")
+        if "Default" in traits:
+            lines.append("        let default_equal = format!(\"{:?}\", <dx::%s as ::core::default::Default>::default()) == format!(\"{:?}\", <sd::%s as ::core::default::Default>::default());" % (TT, TT))
+            checks.append("default_equal")
+    if "PartialEq" in traits:
+        lines.append("        let eq_equal = ::dx_support::table_eq(&a) == ::dx_support::table_eq(&b) && ::dx_support::table_ne(&a) == ::dx_support::table_ne(&b);")
+        checks.append("eq_equal")
+    if "PartialOrd" in traits:
+        lines.append("        let pcmp_equal = ::dx_support::table_pcmp(&a) == ::dx_support::table_pcmp(&b) && ::dx_support::table_ops(&a) == ::dx_support::table_ops(&b);")
+        checks.append("pcmp_equal")
+    if "Ord" in traits:
+        lines.append("        let cmp_equal = ::dx_support::table_cmp(&a) == ::dx_support::table_cmp(&b);")
+        checks.append("cmp_equal")
+    if "Hash" in traits and "PartialEq" in traits:
+        lines.append("        let hash_consistent = ::dx_support::law_eq_hash(&a) == -1;")
+        checks.append("hash_consistent")
+    fmt = ",".join("\\\"%s\\\":{}" % c for c in checks)
+    lines.append("        format!(\"{{\\\"id\\\":%d,\\\"nvals\\\":{},%s,\\\"diff\\\":\\\"{}\\\"}}\\n\", a.len(), %s, ::dx_support::json_str(&diff))" % (idx, fmt, ", ".join(checks)))
+    lines.append("    }\n}")
+    return "\n".join(lines), checks
+
+
+C12_SPECIAL = [
+    # (name, traits, item, driver body producing the same keys) - shapes the random grammar does not reach
+    ("empty_enum", ["Clone", "Debug", "PartialEq", "Eq", "PartialOrd", "Ord", "Hash"], "pub enum T {}", None),
+    ("empty_enum_generic", ["Clone", "Debug", "PartialEq", "Eq", "PartialOrd", "Ord", "Hash"], "pub enum T<G> { #[allow(dead_code)] Never(::core::convert::Infallible, G) }", None),
+    ("unsized_tail", ["Debug", "PartialEq", "Eq", "PartialOrd", "Ord", "Hash"], "pub struct T<G: ?Sized> { pub head: u8, pub tail: G }",
+     """let a: ::std::boxed::Box<dx::T<[u8]>> = ::std::boxed::Box::new(dx::T { head: 1, tail: [1u8, 2] });
+        let a2: ::std::boxed::Box<dx::T<[u8]>> = ::std::boxed::Box::new(dx::T { head: 1, tail: [1u8, 3, 0] });
+        let b: ::std::boxed::Box<sd::T<[u8]>> = ::std::boxed::Box::new(sd::T { head: 1, tail: [1u8, 2] });
+        let b2: ::std::boxed::Box<sd::T<[u8]>> = ::std::boxed::Box::new(sd::T { head: 1, tail: [1u8, 3, 0] });
+        let debug_equal = format!("{:?}", a) == format!("{:?}", b) && format!("{:#?}", a2) == format!("{:#?}", b2);
+        let eq_equal = (*a == *a2) == (*b == *b2) && (*a == *a) == (*b == *b);
+        let pcmp_equal = a.partial_cmp(&a2) == b.partial_cmp(&b2);
+        let cmp_equal = (*a).cmp(&*a2) == (*b).cmp(&*b2);
+        let hash_consistent = ::dx_support::feed_of(&*a) == ::dx_support::feed_of(&*a) && ::dx_support::feed_of(&*a) != ::dx_support::feed_of(&*a2);
+        format!("{{\\"id\\":IDX,\\"nvals\\":2,\\"debug_equal\\":{},\\"eq_equal\\":{},\\"pcmp_equal\\":{},\\"cmp_equal\\":{},\\"hash_consistent\\":{},\\"diff\\":\\"\\"}}\\n", debug_equal, eq_equal, pcmp_equal, cmp_equal, hash_consistent)"""),
+    ("unsized_str_tail", ["Debug", "PartialEq", "Eq", "PartialOrd", "Ord", "Hash"], "pub struct T(pub u8, pub str);", "COMPILE_ONLY"),
+    ("float_partial", ["Clone", "Debug", "Default", "PartialEq", "PartialOrd"], "pub struct T(pub f64, pub i8);",
+     """let xs = [(0.0f64, 1i8), (1.0, 0), (f64::NAN, 0), (1.0, 5), (f64::NAN, 7), (-0.0, 1)];
+        let a: ::std::vec::Vec<dx::T> = xs.iter().map(|x| dx::T(x.0, x.1)).collect();
+        let b: ::std::vec::Vec<sd::T> = xs.iter().map(|x| sd::T(x.0, x.1)).collect();
+        let debug_equal = a.iter().zip(b.iter()).all(|(x, y)| format!("{:?}", x) == format!("{:?}", y) && format!("{:+.2?}", x) == format!("{:+.2?}", y));
+        let eq_equal = ::dx_support::table_eq(&a) == ::dx_support::table_eq(&b) && ::dx_support::table_ne(&a) == ::dx_support::table_ne(&b);
+        let pcmp_equal = ::dx_support::table_pcmp(&a) == ::dx_support::table_pcmp(&b) && ::dx_support::table_ops(&a) == ::dx_support::table_ops(&b);
+        let default_equal = format!("{:?}", <dx::T as ::core::default::Default>::default()) == format!("{:?}", <sd::T as ::core::default::Default>::default());
+        format!("{{\\"id\\":IDX,\\"nvals\\":6,\\"debug_equal\\":{},\\"eq_equal\\":{},\\"pcmp_equal\\":{},\\"default_equal\\":{},\\"diff\\":\\"\\"}}\\n", debug_equal, eq_equal, pcmp_equal, default_equal)"""),
+    ("float_enum_partial", ["Clone", "Debug", "PartialEq", "PartialOrd"], "pub enum T { A(u8, f64, u8), B { x: f64 }, C }",
+     """let mk_d = |k: usize| -> dx::T { match k { 0 => dx::T::A(0, f64::NAN, 1), 1 => dx::T::A(1, f64::NAN, 0), 2 => dx::T::A(1, 2.0, 0), 3 => dx::T::B { x: f64::NAN }, 4 => dx::T::B { x: 1.0 }, _ => dx::T::C } };
+        let mk_s = |k: usize| -> sd::T { match k { 0 => sd::T::A(0, f64::NAN, 1), 1 => sd::T::A(1, f64::NAN, 0), 2 => sd::T::A(1, 2.0, 0), 3 => sd::T::B { x: f64::NAN }, 4 => sd::T::B { x: 1.0 }, _ => sd::T::C } };
+        let a: ::std::vec::Vec<dx::T> = (0..6).map(mk_d).collect(); let b: ::std::vec::Vec<sd::T> = (0..6).map(mk_s).collect();
+        let debug_equal = a.iter().zip(b.iter()).all(|(x, y)| format!("{:?}", x) == format!("{:?}", y));
+        let eq_equal = ::dx_support::table_eq(&a) == ::dx_support::table_eq(&b);
+        let pcmp_equal = ::dx_support::table_pcmp(&a) == ::dx_support::table_pcmp(&b) && ::dx_support::table_ops(&a) == ::dx_support::table_ops(&b);
+        format!("{{\\"id\\":IDX,\\"nvals\\":6,\\"debug_equal\\":{},\\"eq_equal\\":{},\\"pcmp_equal\\":{},\\"diff\\":\\"\\"}}\\n", debug_equal, eq_equal, pcmp_equal)"""),
+    ("param_H_state", ["Clone", "Debug", "Default", "PartialEq", "Eq", "PartialOrd", "Ord", "Hash"], "pub struct T<H, __H = u8>(pub H, pub ::core::marker::PhantomData<__H>);",
+     """let a = vec![dx::T::<u8>(1, ::core::marker::PhantomData), dx::T::<u8>(2, ::core::marker::PhantomData)];
+        let b = vec![sd::T::<u8>(1, ::core::marker::PhantomData), sd::T::<u8>(2, ::core::marker::PhantomData)];
+        let debug_equal = a.iter().zip(b.iter()).all(|(x, y)| format!("{:?}", x) == format!("{:?}", y));
+        let eq_equal = ::dx_support::table_eq(&a) == ::dx_support::table_eq(&b);
+        let cmp_equal = ::dx_support::table_cmp(&a) == ::dx_support::table_cmp(&b);
+        let hash_consistent = ::dx_support::law_eq_hash(&a) == -1;
+        format!("{{\\"id\\":IDX,\\"nvals\\":2,\\"debug_equal\\":{},\\"eq_equal\\":{},\\"cmp_equal\\":{},\\"hash_consistent\\":{},\\"diff\\":\\"\\"}}\\n", debug_equal, eq_equal, cmp_equal, hash_consistent)"""),
+    ("raw_names", ["Clone", "Debug", "Default", "PartialEq", "Eq", "PartialOrd", "Ord", "Hash"], "pub struct r#T { pub r#type: u8, pub r#fn: bool }",
+     """let a = vec![dx::T { r#type: 1, r#fn: true }, dx::T { r#type: 2, r#fn: false }]; let b = vec![sd::T { r#type: 1, r#fn: true }, sd::T { r#type: 2, r#fn: false }];
+        let mut diff = String::new();
+        let debug_equal = a.iter().zip(b.iter()).all(|(x, y)| { let (p, q) = (format!("{:?}", x), format!("{:?}", y)); if p != q { diff = format!("{} vs {}", p, q); } p == q });
+        let eq_equal = ::dx_support::table_eq(&a) == ::dx_support::table_eq(&b);
+        let cmp_equal = ::dx_support::table_cmp(&a) == ::dx_support::table_cmp(&b);
+        format!("{{\\"id\\":IDX,\\"nvals\\":2,\\"debug_equal\\":{},\\"eq_equal\\":{},\\"cmp_equal\\":{},\\"diff\\":\\"{}\\"}}\\n", debug_equal, eq_equal, cmp_equal, ::dx_support::json_str(&diff))"""),
+    ("raw_enum_names", ["Clone", "Debug", "PartialEq"], "pub enum T { r#match { r#loop: u8 }, r#Self_(u8), r#type }",
+     """let a = vec![dx::T::r#match { r#loop: 1 }, dx::T::r#Self_(2), dx::T::r#type]; let b = vec![sd::T::r#match { r#loop: 1 }, sd::T::r#Self_(2), sd::T::r#type];
+        let mut diff = String::new();
+        let debug_equal = a.iter().zip(b.iter()).all(|(x, y)| { let (p, q) = (format!("{:?}", x), format!("{:?}", y)); if p != q { diff = format!("{} vs {}", p, q); } p == q });
+        let eq_equal = ::dx_support::table_eq(&a) == ::dx_support::table_eq(&b);
+        format!("{{\\"id\\":IDX,\\"nvals\\":3,\\"debug_equal\\":{},\\"eq_equal\\":{},\\"diff\\":\\"{}\\"}}\\n", debug_equal, eq_equal, ::dx_support::json_str(&diff))"""),
+    ("where_self", ["Clone", "Debug", "PartialEq", "Eq", "Hash"], "pub struct T<G> where Self: ::core::marker::Sized, G: ::core::marker::Copy { pub a: G }",
+     """let a = vec![dx::T { a: 1u8 }, dx::T { a: 2u8 }]; let b = vec![sd::T { a: 1u8 }, sd::T { a: 2u8 }];
+        let debug_equal = a.iter().zip(b.iter()).all(|(x, y)| format!("{:?}", x) == format!("{:?}", y));
+        let eq_equal = ::dx_support::table_eq(&a) == ::dx_support::table_eq(&b);
+        let hash_consistent = ::dx_support::law_eq_hash(&a) == -1;
+        format!("{{\\"id\\":IDX,\\"nvals\\":2,\\"debug_equal\\":{},\\"eq_equal\\":{},\\"hash_consistent\\":{},\\"diff\\":\\"\\"}}\\n", debug_equal, eq_equal, hash_consistent)"""),
+]
+
+
+def c12_special_module(idx, spec, entry):
+    name, traits, item, body = spec
+    lines = ["pub mod m%d {" % idx,
+             "    pub mod dx { %s %s }" % (derive_head(traits, entry), item),
+             "    pub mod sd { #[derive(%s)] %s }" % (", ".join(traits), item)]
+    if body is None or body == "COMPILE_ONLY":
+        body = "format!(\"{{\\\"id\\\":IDX,\\\"nvals\\\":0,\\\"diff\\\":\\\"\\\"}}\\n\")"
+    lines.append("    pub fn run() -> String {\n        %s\n    }\n}" % body.replace("IDX", str(idx)))
+    return "\n".join(lines)
